@@ -32,6 +32,8 @@ type RCase struct {
 	Template string     `json:"template"`
 	Umask    int        `json:"umask"`    // process umask while generation 1 creates the queue directories
 	Outputs  int        `json:"outputs"`  // 1 or 2 output/buffer pairs (separate roots)
+	Asym     bool       `json:"asym,omitempty"` // two outputs only: the first output's upstream is healthy in generation 1 (its consumer takes and
+	// confirms every chunk), only the second one stalls - the outputs' queue directories hold different backlogs at the restart
 	Tuples   [][][]byte `json:"tuples"`   // distinct key tuples of generation 1
 	PerTuple []int      `json:"perTuple"` // records per tuple in generation 1
 	Again    []int      `json:"again"`    // generation 2, after start-up: one more record for Tuples[i] (index >= len(Tuples): a tuple not seen before)
@@ -238,7 +240,12 @@ func runRestart(c RCase) vh.Result {
 	var takenMu sync.Mutex
 	takenGen1 := map[string]map[string]int{} // output -> tuple -> records consumed by the draining consumers of generation 1
 	ld1.PipelineArgs.NewConsumerOverride = func(_ logger.Logger, name string, _ base.ChunkDecoder, args base.ChunkConsumerArgs) base.ChunkConsumer {
-		return &stallConsumer{args: args, stopped: channels.NewSignalAwaitable(), drain: drain, taken: func(data []byte) {
+		d := drain
+		if c.Asym && c.Outputs == 2 && name == "out0" {
+			d = make(chan struct{})
+			close(d) // healthy from the start
+		}
+		return &stallConsumer{args: args, stopped: channels.NewSignalAwaitable(), drain: d, taken: func(data []byte) {
 			msg, err := vh.DecodeForwardMessage(data)
 			if err != nil {
 				return
@@ -265,6 +272,9 @@ func runRestart(c RCase) vh.Result {
 		}
 	}
 	sink1.Close()
+	if c.Asym && c.Outputs == 2 {
+		time.Sleep(80 * time.Millisecond) // several flush intervals: the chunks exist and the healthy output has delivered them before the stop
+	}
 	shutdownDone := make(chan struct{})
 	go func() { orch1.Shutdown(); close(shutdownDone) }()
 	select {
@@ -329,6 +339,9 @@ func runRestart(c RCase) vh.Result {
 	}
 	res.NonTrivial = true
 	res.Classes = append(res.Classes, fmt.Sprintf("keys-%d", c.NKeys), fmt.Sprintf("outputs-%d", c.Outputs), fmt.Sprintf("umask-%03o", c.Umask))
+	if c.Asym && c.Outputs == 2 {
+		res.Classes = append(res.Classes, "backlog-only-in-the-second-output")
+	}
 	for _, tu := range c.Tuples {
 		if tooLongForDir(tu) {
 			res.Classes = append(res.Classes, "ID-too-long-for-a-directory-name")
@@ -606,7 +619,8 @@ func genRestart(t *rapid.T) RCase {
 	c := RCase{NKeys: rapid.IntRange(1, 3).Draw(t, "nkeys")}
 	c.Template = rapid.SampledFrom(templates[c.NKeys]).Draw(t, "tmpl")
 	c.Umask = rapid.SampledFrom([]int{0o022, 0o022, 0o027, 0o077, 0o002, 0o007}).Draw(t, "umask")
-	c.Outputs = rapid.SampledFrom([]int{1, 1, 2}).Draw(t, "outputs")
+	c.Outputs = rapid.SampledFrom([]int{1, 2, 2}).Draw(t, "outputs")
+	c.Asym = c.Outputs == 2 && rapid.Bool().Draw(t, "asym")
 	nt := rapid.IntRange(1, 5).Draw(t, "ntuples")
 	seen := map[string]bool{}
 	genTu := func() [][]byte {
